@@ -145,8 +145,20 @@ class Setup:
         name, fr = rng.choice(self.corpus)
         kind = rng.choice(["as-is", "bit-flip", "byte-flip", "truncate", "splice", "reorder", "before-greeting",
                            "undecodable-payload", "unknown-type", "bad-magic", "over-limit-length", "random-bytes",
-                           "huge-list-length", "multi-flip", "garbage-after-frame"])
-        greeted = kind != "before-greeting"
+                           "huge-list-length", "multi-flip", "garbage-after-frame", "valid-content-before-greeting"])
+        greeted = kind not in ("before-greeting", "valid-content-before-greeting")
+        if kind == "valid-content-before-greeting":
+            # out of protocol order: perfectly valid NEW content, but sent before the greeting -> must change nothing
+            world, sn = self.world, self.sn
+            head = sn.cm.coinstate.current_chain_hash
+            if rng.random() < 0.5:
+                used = {r for t in self.pooled for r in t.refs()}
+                t = world.make_rtx(head, rng, exclude=used, signer="ref")
+                if t is not None:
+                    return "valid-new-transaction", kind, sn.wire.transaction(bridge.rtx_to_real(t)), False
+            parent = world.chain.blocks[head]
+            rb = world.mine(world.draft(head, [], parent.ts + 5, world.keys[0][1]))
+            return "valid-new-block", kind, sn.wire.block(bridge.rblock_to_real(rb)), False
         if kind == "as-is" or kind == "before-greeting":
             data = fr
             if name.startswith("data-invalid"):
@@ -248,7 +260,10 @@ class Setup:
         signal.signal(signal.SIGALRM, _alarm)
         for n in range(nstreams):
             name, kind, data, greeted = self.hostile_stream()
-            if hostile is None or hostile.peer.closed or hostile.peer not in sn.lp.selector.map or hostile_greeted != greeted:
+            # ungreeted streams always get a fresh connection (an earlier "before greeting" stream may itself have been a
+            # greeting frame, after which the connection is a greeted one)
+            if hostile is None or hostile.peer.closed or hostile.peer not in sn.lp.selector.map or hostile_greeted != greeted \
+                    or not greeted:
                 if hostile is not None and not hostile.closed:
                     hostile.close()
                     sn.settle()
@@ -298,6 +313,12 @@ class Setup:
                     for t in self.pooled:        # the unvalidated block may have evicted pooled transactions
                         if t.id() not in have:
                             sn.cm.add_transaction_to_pool(bridge.rtx_to_real(t))
+                elif kind == "valid-content-before-greeting":
+                    what = [n2 for n2, (x, y) in zip(("chain state", "pool", "store tables", "write buffer", "state"), zip(before, after)) if x != y]
+                    mon.v("content-accepted-before-greeting", "a %s sent before the greeting changed the node's %s" % (name, what), w)
+                    sn.store.write_buffer.clear()
+                    sn.cm.set_coinstate(self.world.cs)
+                    sn.cm.transaction_pool[:] = [t for t in sn.cm.transaction_pool if t.hash() in {x.id() for x in self.pooled}]
                 else:
                     what = [n2 for n2, (x, y) in zip(("chain state", "pool", "store tables", "write buffer", "state"), zip(before, after)) if x != y]
                     mon.v("hostile-input-changed:" + "+".join(what), "hostile %s stream built from %s changed %s" % (kind, name, what), w)
